@@ -67,8 +67,12 @@ MUTANTS = {
         ('vfs-unlink-no-check', VS, "    fn unlink(&self, ctx: &Context, parent: VfsInode, name: &CStr) -> Result<()> {\n        validate_path_component(name)?;\n", "    fn unlink(&self, ctx: &Context, parent: VfsInode, name: &CStr) -> Result<()> {\n"),
         ('dot-only', V, "    bytes.starts_with(CURRENT_DIR_CSTR) || bytes.starts_with(PARENT_DIR_CSTR)", "    bytes.starts_with(CURRENT_DIR_CSTR)"),
         ('vfs-lookup-no-slash-check', VS, "        if name.to_bytes_with_nul().contains(&SLASH_ASCII) {\n            return Err(io::Error::from_raw_os_error(libc::EINVAL));\n        }\n\n        match self.get_real_rootfs(parent)? {\n            (Left(fs), idata) => self.lookup_pseudo(fs, idata, ctx, name),", "        match self.get_real_rootfs(parent)? {\n            (Left(fs), idata) => self.lookup_pseudo(fs, idata, ctx, name),"),
+        ('open-inode-any-type', 'src/passthrough/sync_io.rs', "        if !is_safe_inode(data.mode) {\n            Err(ebadf())", "        if false {\n            Err(ebadf())"),
+        ('restricted-open-follows-links', P, "        let flags = libc::O_NOFOLLOW | libc::O_CLOEXEC | flags;", "        let flags = libc::O_CLOEXEC | flags;"),
+        ('safe-inode-includes-symlinks', 'src/passthrough/util.rs', "    matches!(mode & libc::S_IFMT, libc::S_IFREG | libc::S_IFDIR)", "    matches!(mode & libc::S_IFMT, libc::S_IFREG | libc::S_IFDIR | libc::S_IFLNK)"),
         ('pt-lookup-no-slash-check', 'src/passthrough/sync_io.rs', "        if name.to_bytes_with_nul().contains(&SLASH_ASCII) {\n            return Err(einval());\n        }\n        self.do_lookup(parent, name)", "        self.do_lookup(parent, name)"),
     ],
+    'C06x': [],
     'C07': [
         ('index-shift-48', V, "const VFS_INDEX_SHIFT: u8 = 56;", "const VFS_INDEX_SHIFT: u8 = 48;"),
         ('ignore-vacancy', V, "        if let Some(fs) = &superblocks[fs_idx as usize] {\n            return Ok(fs.clone());\n        }\n\n        Err(Error::from_raw_os_error(libc::ENOENT))", "        if let Some(fs) = &superblocks[fs_idx as usize] {\n            return Ok(fs.clone());\n        }\n        if let Some(fs) = &superblocks[1] {\n            return Ok(fs.clone());\n        }\n\n        Err(Error::from_raw_os_error(libc::ENOENT))"),
